@@ -14,7 +14,7 @@ OUTSIDE = ("that RSA/ECDSA signatures verify and the certificate chain verifies 
            "shorter than 64 bytes for HMAC classes; custom TrustZone in CRC-manifest classes")
 STUBS = B.STUBS
 MUST_REACH = ["c02\\.crc.*", "c02\\.signed.*", "c02\\.hmac.*", "c02\\.manifest.*", "c02\\.encrypted.*", "c02\\.coverage.*"]
-OPTS = {"quick": {"case_timeout_s": 200}, "thorough": {"case_timeout_s": 2400}}
+OPTS = {"quick": {"case_timeout_s": 450}, "thorough": {"case_timeout_s": 2400}}
 
 
 def setup(symbolic):
